@@ -3,6 +3,7 @@ package ast
 import (
 	"errors"
 	"fmt"
+	"math"
 
 	comb "github.com/moorara/algo/parser/combinator"
 
@@ -476,6 +477,11 @@ func runeRangesToAlt(neg bool, ranges ...[2]rune) (*Alt, []rune) {
 			for r := g[0]; r <= g[1]; r++ {
 				alt.Exprs = append(alt.Exprs, runeToChar(r))
 				chars = append(chars, r)
+
+				// The largest rune cannot be incremented: r++ would wrap around and the loop would never end.
+				if r == math.MaxInt32 {
+					break
+				}
 			}
 		}
 	}
